@@ -211,6 +211,22 @@ def apply_core_settings(state, s):
     state.atCommandActions = acts
 
 
+def setting_bool(v):
+    """The value of an on/off setting as OctoPrint's boolean reader defines it (strings and numbers from a hand-edited file)."""
+    if isinstance(v, bool):
+        return v
+    if v is None:
+        return False
+    if isinstance(v, (int, float)):
+        return v != 0
+    if isinstance(v, str):
+        return v.lower() in ("true", "yes", "y", "1")
+    return True
+
+
+RAW_BOOLS = [True, False, True, False, "false", "no", "0", "off", "true", "yes", "1", "False", "TRUE", 0, 1, 2]
+
+
 def hooked_state(state):
     """Read-only snapshot of the tracking state; raises AttributeError if a field disappeared."""
     p = state.position
@@ -368,16 +384,33 @@ class Plugin(object):
         full.update(s)
         self.settings = full
         st = self.unit._settings
-        st.set_boolean(["clearRegionsAfterPrintFinishes"], bool(full["clear"]))
-        st.set_boolean(["mayShrinkRegionsWhilePrinting"], bool(full["shrink"]))
+        for key, name in (("clear", "clearRegionsAfterPrintFinishes"), ("shrink", "mayShrinkRegionsWhilePrinting")):
+            if isinstance(full[key], bool):
+                st.set_boolean([name], full[key])
+            else:
+                st.set([name], full[key])        # as found in a hand-edited config.yaml: "false", "0", 1, ...
+            full[key] = setting_bool(full[key])  # what the setting *is*, as OctoPrint's boolean reader defines it
         st.set(["enteringExcludedRegionGcode"], full["enter"])
         st.set(["exitingExcludedRegionGcode"], full["exit"])
-        st.set(["extendedExcludeGcodes"], [dict(gcode=g, mode=m, description="vp") for g, m in full["ext"].items()])
-        st.set(["atCommandActions"], [dict(command=c, parameterPattern=p, action=a, description="vp")
-                                      for c, p, a in full["at"]])
+        at_list = [dict(command=c, parameterPattern=p, action=a, description="vp") for c, p, a in full["at"]]
+        ext_list = [dict(gcode=g, mode=m, description="vp") for g, m in full["ext"].items()]
+        bad = full.get("malformed")
+        if bad == "at-regex":
+            # a pattern typed into the settings dialog that is not a valid Python regex (sorts before "ExcludeRegion")
+            at_list.append(dict(command="Bad", parameterPattern="(skip", action="enable_exclusion", description="vp"))
+        elif bad == "ext-key":
+            ext_list.append(dict(gcode="A1", mode="exclude"))      # row without a description (hand-edited file)
+        st.set(["extendedExcludeGcodes"], ext_list)
+        st.set(["atCommandActions"], at_list)
         st.set(["loggingMode"], full.get("logmode", "octoprint"))
         self.env["settings"]().setBoolean(["feature", "g90InfluencesExtruder"], bool(full["g90e"]))
-        if fire:
+        if fire and bad:
+            # OctoPrint's event bus logs an exception raised by a subscriber and carries on
+            try:
+                self.event("SettingsUpdated")
+            except Exception:  # noqa: B902
+                self.swallowed_settings_errors = getattr(self, "swallowed_settings_errors", 0) + 1
+        elif fire:
             self.event("SettingsUpdated")
 
     def event(self, name, payload=None):
